@@ -7,7 +7,7 @@ open Prophy WF Accept
 abbrev SizerAtC (all : List Member) (allv : List Val) (n : String) (t : Ty) (post : Bytes) : Prop :=
   isSizer n all = true → ∃ p, t = .prim p ∧ Cpp.sizerPrimOf n all = p ∧
     inRange p ((Spec.counter n all allv : Nat) : Int) = true ∧ sizerShift n all = 0 ∧
-    Spec.counter n all allv ≤ Cpp.resizeLimit ∧ Spec.counter n all allv ≤ post.length ∧
+    Spec.counter n all allv ≤ Cpp.resizeLimit ∧ Spec.counter n all allv * Cpp.resizeElem n all ≤ post.length ∧
     (∀ m, all.find? (fun m => decide (m.kind.sizer? = some n)) = some m → ∀ s l, m.kind = .limited s l →
       Spec.counter n all allv ≤ l)
 
@@ -601,7 +601,7 @@ mutual
         intro his
         obtain ⟨p, hp1, hp2, hp3, hp4, hp5, hp6⟩ := hsd.dec n t k hmem his
         refine ⟨p, hp1, hp2, hp3, hp4, hp5, ?_, hp6⟩
-        obtain ⟨m', hm', hs'⟩ := (isSizer_iff n all).1 his
+        obtain ⟨m', hm', hs', hre⟩ := Cpp.resizeElem_mem_r1 n all his
         have hmr : m' ∈ r := by
           rw [hall] at hm'
           rcases List.mem_append.1 hm' with hb | hc
@@ -621,9 +621,10 @@ mutual
               subst hkp
               simp [Member.kind, MKind.sizer?] at hs'
             · exact hr
-        have := Spec.counter_le_clen_p10 all allv n r vs (before ++ [.mk n t k])
+        have := Spec.counter_mul_le_clen_r1 all allv n r vs (before ++ [.mk n t k])
           (off + Spec.clen (Spec.fieldChunks all allv n t k v)) (Spec.endsBlock (.mk n t k)) hfr hpr hhr hlens.2
-          ⟨m', hmr, hs'⟩
+          m' hmr hs'
+        rw [hre]
         simp only [List.length_append, Spec.render_length]
         omega
       obtain ⟨rs1, p1, hbody⟩ := dec_field_p10 e v all allv n t k data pre _ (base + off) rs lens
